@@ -24,3 +24,12 @@
          (and (= (json.coord d 0) s0) (= (json.coord d 1) s1) (= (json.coord d 2) s2) (= (json.coord d 3) s3)
               (= (json.coord d 4) s4) (= (json.coord d 5) s5) (= (json.coord d 6) s6) (= (json.coord d 7) s7)))
        :pattern ((json.encProof s0 s1 s2 s3 s4 s5 s6 s7)))))
+
+; ---- parameter documents (C16): accessor view of encoding/json on the mirror structs ----
+(declare-fun json.pStr ((Array Int Int) Str) Str)                 ; string-valued field by JSON key
+(declare-fun json.pNum ((Array Int Int) Str) Int)                 ; number-valued field by JSON key
+(declare-fun json.pLen ((Array Int Int) Str) Int)                 ; length of an array-valued field
+(declare-fun json.pStrAt ((Array Int Int) Str Int) Str)           ; element of a string array
+(declare-fun json.pNumAt ((Array Int Int) Str Int) Int)           ; element of a number array
+(declare-fun json.pRowLen ((Array Int Int) Str Int) Int)          ; length of a row of a 2-d string array
+(declare-fun json.pStrAt2 ((Array Int Int) Str Int Int) Str)      ; element of a 2-d string array
